@@ -1,0 +1,11 @@
+//go:build !verif
+
+package pebbledb
+
+import "github.com/cockroachdb/pebble"
+
+// Verification hooks (see /verif/MANIFEST.json "hooks"); no-ops unless built with -tags verif.
+
+func verifGuardProbe(dbPath, resolved string) error { return nil }
+
+func verifOpenHook(opts *pebble.Options) {}
